@@ -622,17 +622,12 @@ def rr_directory(c, n, dirname=b'DIR'):
             p, q = V.items_of(a.rrnames[i - 1]), V.items_of(a.rrnames[i])
             c.assume(Or(p[0] < q[0], And(p[0] == q[0], p[1] < q[1])))
 
-    def rec(ident, isdir, rrname):
+    def rec(j, ident, isdir, rrname):
         ents = lambda: c.obj('pycdlib.rockridge.RockRidgeEntries', cl_record=None, px_record=None)       # noqa: E731
         rr = c.obj(RRC, _initialized=True, _full_name=rrname if rrname is not None else b'', dr_entries=ents(), ce_entries=ents())
         return c.obj(DR, initialized=True, file_ident=ident, dr_len=40, isdir=isdir, file_flags=(2 if isdir else 0), data_length=2048 if isdir else 5,
-                     rock_ridge=rr, children=[], rr_children=[], extents_to_here=1, offset_to_here=0, index_in_parent=0, data_continuation=None)
-    a.kids = [rec(b'\x00', True, None), rec(b'\x01', True, None)] + [rec(b'F%d.;1' % i, False, a.rrnames[i]) for i in range(n)]
-    off = 0
-    for j, k in enumerate(a.kids):
-        off += 40
-        k.fields['offset_to_here'] = off
-        k.fields['index_in_parent'] = j
+                     rock_ridge=rr, children=[], rr_children=[], extents_to_here=1, offset_to_here=40 * (j + 1), index_in_parent=j, data_continuation=None)
+    a.kids = [rec(0, b'\x00', True, None), rec(1, b'\x01', True, None)] + [rec(2 + i, b'F%d.;1' % i, False, a.rrnames[i]) for i in range(n)]
     parent = c.obj(DR, initialized=True, isdir=True)
     prr = c.obj(RRC, _initialized=True, _full_name=b'dir')
     return c.obj(DR, initialized=True, isdir=True, parent=parent, rock_ridge=prr, data_length=2048, children=list(a.kids),
